@@ -317,7 +317,25 @@ func Cases(r *hx.Rand, tier string) []Case {
 	if tier == "thorough" || len(ncPool) < m {
 		m = len(ncPool)
 	}
-	return append(out, ncPool[:m]...)
+	out = append(out, ncPool[:m]...)
+	// three and more arguments of the plugins that take any number (round 5; drawn last, see above)
+	chMust, chPool := Chains()
+	out = append(out, chMust...)
+	hx.Shuffle(r.Fork(8), chPool)
+	k := 30
+	if tier == "thorough" || len(chPool) < k {
+		k = len(chPool)
+	}
+	out = append(out, chPool[:k]...)
+	// the type parameter of an enclosing generic function at every position (tparam.go)
+	tpMust, tpPool := TParamCases()
+	out = append(out, tpMust...)
+	hx.Shuffle(r.Fork(9), tpPool)
+	k = 60
+	if tier == "thorough" || len(tpPool) < k {
+		k = len(tpPool)
+	}
+	return append(out, tpPool[:k]...)
 }
 
 // Directions: every direction of every channel the combinators receive from (dup, fmap, join in its
@@ -412,4 +430,120 @@ func Twins(r *hx.Rand, tier string) []Case {
 
 func (c Case) String() string {
 	return fmt.Sprintf("%s %s %s", c.Plugin, c.Class, c.ArgsSexp())
+}
+
+// relFamily: types that are related but not identical: an unnamed type literal U and two distinct defined
+// types over U.  N1 and N2 are both assignable to and from U (for a U that is not itself named or basic)
+// but not to each other — assignability is not transitive, identity is.
+func relFamily(u *Ty, id int) []*Ty { return []*Ty{u, Named(id, u), Named(id+1, u)} }
+
+// Chains (round 5): the plugins that take ANY number of arguments (join over channels, compose, do, tuple)
+// with three and four arguments whose types are related pairwise in every pattern over {U, N1, N2}: the
+// checks between neighbours / with the first argument are loops, two arguments only exercise their first
+// iteration.  All 27 patterns of length three over a slice type; the alternation patterns (named / unnamed /
+// other named, …) of length three and four over a map, func, pointer, struct, chan and basic type.
+func Chains() (must, pool []Case) {
+	unders := []struct {
+		name string
+		u    *Ty
+	}{
+		{"slice", Slice(tInt)}, {"map", Map(tStr, tInt)}, {"func", Sig(L(tInt), L(tBool))}, {"ptr", Ptr(tInt)},
+		{"struct", Struct(tInt, tStr)}, {"chan", Chan(2, tInt)}, {"basic", tInt},
+	}
+	f0 := func(r *Ty) *Ty { return Sig(nil, L(r, tErr)) }
+	pats3 := [][]int{{1, 0, 2}, {0, 1, 0}, {1, 0, 1}, {0, 0, 1}, {1, 1, 0}, {1, 2, 1}, {1, 1, 1}, {0, 1, 2}, {2, 0, 1}}
+	pats4 := [][]int{{1, 0, 0, 2}, {0, 1, 0, 2}, {1, 0, 1, 0}, {1, 1, 0, 2}, {0, 0, 0, 1}, {1, 1, 1, 1}, {1, 0, 2, 0}}
+	id := 8500
+	for ui, un := range unders {
+		fam := relFamily(un.u, id)
+		id += 2
+		var pats [][]int
+		if ui == 0 {
+			for a := 0; a < 3; a++ {
+				for b := 0; b < 3; b++ {
+					for c := 0; c < 3; c++ {
+						pats = append(pats, []int{a, b, c})
+					}
+				}
+			}
+		} else {
+			pats = append(pats, pats3...)
+		}
+		pats = append(pats, pats4...)
+		for pi, pat := range pats {
+			name := un.name + "/"
+			for _, k := range pat {
+				name += string("UAB"[k])
+			}
+			// join: chan of each; the channels alternate between bidirectional and receive only
+			var chans, dos, tup []*Ty
+			for i, k := range pat {
+				chans = append(chans, Chan([]int{2, 0}[(i+pi)%2], fam[k]))
+				dos = append(dos, f0(fam[k]))
+				tup = append(tup, fam[k])
+			}
+			// compose: f_i : func(X_i) (X_i+1, error): the result of one function and the parameter of the next are
+			// neighbours in the pattern (the first parameter is an int)
+			var comp []*Ty
+			prev := tInt
+			for i := 0; i+1 < len(pat); i += 2 {
+				comp = append(comp, Sig(L(prev), L(fam[pat[i]], tErr)))
+				prev = fam[pat[i+1]]
+			}
+			comp = append(comp, Sig(L(prev), L(tStr, tErr)))
+			cj := Case{Plugin: "join", Args: chans, Class: "chain/" + name}
+			cc := Case{Plugin: "compose", Args: comp, Class: "chain/" + name}
+			// three functions with all four types from the family
+			var comp3 []*Ty
+			if len(pat) == 4 {
+				comp3 = []*Ty{Sig(L(tInt), L(fam[pat[0]], tErr)), Sig(L(fam[pat[1]]), L(fam[pat[2]], tErr)), Sig(L(fam[pat[3]]), L(tStr, tErr))}
+			}
+			if ui == 0 || pi < 3 || len(pat) == 4 && pi%2 == 0 {
+				must = append(must, cj)
+			} else {
+				pool = append(pool, cj)
+			}
+			if comp3 != nil {
+				must = append(must, Case{Plugin: "compose", Args: comp3, Class: "chain3/" + name})
+			}
+			if pi < 3 {
+				must = append(must, cc)
+			} else {
+				pool = append(pool, cc)
+			}
+			if pi%4 == ui%4 {
+				pool = append(pool, Case{Plugin: "do", Args: dos, Class: "chain/" + name}, Case{Plugin: "tuple", Args: tup, Class: "chain/" + name})
+			}
+		}
+	}
+	// join with a channel of another kind in a late position, and send only late
+	for n := 3; n <= 5; n++ {
+		for _, odd := range []*Ty{Chan(2, tStr), Chan(1, tInt), Slice(tInt), Chan(2, Chan(2, tInt)), tInt, Chan(2, Named(8490, tInt))} {
+			args := make([]*Ty, n)
+			for i := range args {
+				args[i] = Chan(2, tInt)
+			}
+			args[n-1] = odd
+			must = append(must, Case{Plugin: "join", Args: args, Class: "chain/late-odd"})
+			if n == 4 {
+				a2 := append([]*Ty{}, args...)
+				a2[n-1], a2[1] = a2[1], a2[n-1]
+				must = append(must, Case{Plugin: "join", Args: a2, Class: "chain/middle-odd"})
+			}
+		}
+	}
+	// do and tuple with three to five well-formed arguments
+	for n := 3; n <= 5; n++ {
+		var dos, tup []*Ty
+		for i := 0; i < n; i++ {
+			t := []*Ty{tInt, tStr, Slice(tInt), nsPlain(), Ptr(tInt)}[i]
+			dos = append(dos, f0(t))
+			tup = append(tup, t)
+		}
+		must = append(must, Case{Plugin: "do", Args: dos, Class: "chain/long"}, Case{Plugin: "tuple", Args: tup, Class: "chain/long"})
+		bad := append([]*Ty{}, dos...)
+		bad[n-1] = Sig(nil, L(tInt))
+		must = append(must, Case{Plugin: "do", Args: bad, Class: "chain/late-odd"})
+	}
+	return must, pool
 }
